@@ -468,8 +468,23 @@ func c15Exec(c c15Case) (keys []string, detail, class string) {
 		for _, i := range []int{sNameID, sSessionIndex, sStatus, sReqID} {
 			c2.Str[i] = 1 + (c.Str[i]+2)%5 // another value of the alphabet without control characters
 		}
+		// ... and, every second case, a reconfigured provider: other endpoints, issuers, format,
+		// contexts and flags on the instance that has already built a message
+		reconfigure := (c.Clock+len(c.Kind))%2 == 0
+		if reconfigure {
+			for _, i := range []int{sACS, sSSO, sSLO, sSPIssuer, sIDPIssuer, sNameIDFormat, sContext, sComparison} {
+				c2.Str[i] = 1 + (c.Str[i]+3)%5
+				if c2.Str[i] == 2 { // the empty string switches elements off; stay with values
+					c2.Str[i] = 3
+				}
+			}
+			c2.ForceAuthn, c2.IsPassive = !c.ForceAuthn, !c.IsPassive
+		}
 		sp := c15SP(c)
 		c15BuildOn(sp, c)
+		if reconfigure {
+			copyConfig(sp, c15SP(c2))
+		}
 		sp.Clock = world.Clock(c15Clocks[c2.Clock].T)
 		out2, p2, err2 := c15BuildOn(sp, c2)
 		if p2 != "" || err2 != nil {
